@@ -115,6 +115,26 @@ func runC08(c *Ctx) {
 	if g := c.fn("mqtt", "(*Server).inheritClientSession"); g != nil {
 		c.ob("C08.b marker-before-forward", "(*mqtt.Server).inheritClientSession: a resumed session takes over the whole in-flight map (markers included)", c.pos(g.Pos()), c.call1(g, "(*mqtt.Inflight).Clone") != nil, "")
 	}
+	// the marker survives a reconnect: the resend on resume never drops a PUBREC record
+	if g := c.fn("mqtt", "(*Client).ResendInflightMessages"); g != nil {
+		for _, ci := range c.callsNamed(g, fnInflDelete) {
+			c.noPath("C08.b marker-before-forward", "(*mqtt.Client).ResendInflightMessages never drops a stored PUBREC (the inbound QoS 2 marker) when the session is resumed", g, nil, isIns(ci), nil,
+				[]Assume{assumeTypeIs(int(pubrec))}, "after a reconnect a DUP retransmission would be forwarded a second time")
+		}
+	}
+	// the marker survives a broker restart: it is handed to the persistence hook when it is first stored
+	var setM ssa.CallInstruction
+	for _, ci := range c.callsNamed(f, fnInflSet) {
+		setM = ci
+	}
+	persisted := false
+	for _, q := range c.callsNamed(f, "(*mqtt.Hooks).OnQosPublish") {
+		if setM != nil && describe(q.Common().Args[2]) == describe(setM.Common().Args[1]) && dominatedByFact(q, func(t string) bool { return t == describe(asCall(setM)) }, true) {
+			persisted = true
+		}
+	}
+	c.ob("C08.b marker-before-forward", "(*mqtt.Server).processPublish hands the newly stored marker to hooks.OnQosPublish (persistence)", c.pos(f.Pos()), persisted,
+		"without it a broker restart between PUBREC and PUBREL forgets the marker and the retransmission is forwarded again")
 	// (c) non-failure PUBREC on the duplicate edge
 	codes := c.codeValuesAST()
 	n := 0
@@ -697,6 +717,22 @@ func runC25(c *Ctx) {
 			}
 		}
 		c.ob("C25.a expiry-survives-deferral", "(*mqtt.Server).publishToClient: stores to out.Expiry examined", c.pos(f.Pos()), true, "")
+		// the stored copy keeps the publisher-side fields the expiry housekeeping keys on
+		for _, fld := range []string{"out.ProtocolVersion", "out.Created"} {
+			bad := false
+			for _, st := range storesTo(f, fld) {
+				for _, ci := range c.callsNamed(f, fnInflSet) {
+					if reachableFrom(st, ci) {
+						bad = true
+						c.ob("C25.a expiry-survives-deferral", fmt.Sprintf("(*mqtt.Server).publishToClient: %s is overwritten with %s on a packet that is then kept in the in-flight map", fld, describe(st.Val)), c.pos(st.Pos()), false,
+							"ClearExpiredInflights honours a message's own expiry only for ProtocolVersion 5 and measures age from Created: the stored copy must keep the publisher's values")
+					}
+				}
+			}
+			if !bad {
+				c.ob("C25.a expiry-survives-deferral", "(*mqtt.Server).publishToClient keeps "+fld+" of the stored copy as published", c.pos(f.Pos()), true, "")
+			}
+		}
 	}
 	if f := c.fn("mqtt", "(*Server).eventLoop"); f != nil {
 		for _, n := range []string{"(*mqtt.Server).clearExpiredRetainedMessages", "(*mqtt.Server).clearExpiredInflights", "(*mqtt.Server).clearExpiredClients", "(*mqtt.Server).sendDelayedLWT"} {
@@ -722,20 +758,58 @@ func runC25(c *Ctx) {
 		del := c.call1(f, spec.del)
 		c.ob("C25.c housekeeping", fname(f)+" ranges over the whole store", c.pos(f.Pos()), c.call1(f, spec.rng) != nil && del != nil, "")
 		// own expiry and enforced maximum both lead to deletion
-		own, enforced := false, false
-		for _, ins := range instrs(f) {
-			if b, ok := ins.(*ssa.BinOp); ok {
-				d := describe(b)
-				if strings.Contains(d, ".Expiry < now") {
-					own = true
+		// value flow into the branch conditions of the function (robust against re-arranging the arithmetic):
+		// the decision to delete must depend on the record's Expiry, Created and ProtocolVersion, on `now`
+		// and on the server maximum
+		leaves := map[string]bool{}
+		for _, b := range f.Blocks {
+			if len(b.Instrs) == 0 {
+				continue
+			}
+			ifi, ok := b.Instrs[len(b.Instrs)-1].(*ssa.If)
+			if !ok {
+				continue
+			}
+			seen := map[ssa.Value]bool{}
+			var walk func(v ssa.Value, d int)
+			walk = func(v ssa.Value, d int) {
+				if v == nil || seen[v] || d > 14 {
+					return
 				}
-				if strings.Contains(d, ".Created >") && strings.Contains(d, "now -") {
-					enforced = true
+				seen[v] = true
+				switch x := v.(type) {
+				case *ssa.Parameter:
+					leaves[x.Name()] = true
+				case *ssa.FieldAddr:
+					leaves["."+fieldName(x.X.Type(), x.Field)] = true
+					walk(x.X, d+1)
+				case *ssa.Field:
+					leaves["."+fieldName(x.X.Type(), x.Field)] = true
+					walk(x.X, d+1)
+				case *ssa.Phi:
+					for _, e := range x.Edges {
+						walk(e, d+1)
+					}
+				default:
+					if ins, ok := v.(ssa.Instruction); ok {
+						for _, op := range ins.Operands(nil) {
+							walk(*op, d+1)
+						}
+					}
 				}
 			}
+			walk(ifi.Cond, 0)
 		}
-		c.ob("C25.c housekeeping", fname(f)+" compares the packet's own expiry time with now", c.pos(f.Pos()), own, "")
-		c.ob("C25.c housekeeping", fname(f)+" enforces the server's maximum age", c.pos(f.Pos()), enforced, "")
+		maxName := "maximumExpiry"
+		if spec.fn == "(*Server).clearExpiredRetainedMessages" {
+			maxName = ".MaximumMessageExpiryInterval"
+		}
+		for _, need := range []struct{ leaf, what string }{
+			{".Expiry", "the message's own expiry time"}, {"now", "the current time"}, {".Created", "the message's creation time"},
+			{maxName, "the server's maximum message expiry"}, {".ProtocolVersion", "the publisher's protocol version (only MQTT 5 messages carry an expiry)"},
+		} {
+			c.ob("C25.c housekeeping", fname(f)+": the decision to expire a message depends on "+need.what, c.pos(f.Pos()), leaves[need.leaf], "")
+		}
 	}
 	if f := c.fn("mqtt", "(*Server).processPublish"); f != nil {
 		sts := storesTo(f, "pk.Expiry")
